@@ -560,7 +560,11 @@ fn build_at(spec: &ProgSpec, orig: u16, force_orig_line: bool) -> Built {
             b.emit(Stmt::new(Op::Add, &[5, 5], imm(-1)));
             b.emit(Stmt::new(Op::Br(5, true), &[], lbl("SPINL")));
         }
-        b.emit(Stmt::new(Op::And, &[0, 0], imm(0)));
+        // (R0 is 0 at load: one program in four does without the clearing instruction, so that
+        // the first operation of the program - a call, say - is the first instruction)
+        if tail_reader || spec.spin > 0 || (spec.orig_val >> 5) & 3 != 2 {
+            b.emit(Stmt::new(Op::And, &[0, 0], imm(0)));
+        }
         emit_ops(b, &spec.main, spec, 0, nsubs, selfmods);
         match ending {
             Ending::Halt => b.emit(Stmt::simple(Op::Halt)),
